@@ -6,13 +6,16 @@ import (
 
 	"github.com/shutter-network/rolling-shutter/rolling-shutter/app"
 
+	"github.com/shutter-network/rolling-shutter/rolling-shutter/medley/verifhook"
+
+	"verif/sim/simfs"
 	"verif/sim/simkit"
 )
 
 func init() {
 	simkit.Register(&simkit.Property{
 		ID: "C09", Level: "exploration", Bubble: false, Run: runC09,
-		Rule: "World A: 2-3 real app.ShutterApp replicas execute the same generated block sequence (votes, check-ins, block-seen, DKG results and messages, replays, outsiders; 3-5 addresses, <=3 candidate configs, thresholds biased small); replica k>0 iterates every map in an order drawn from the tape (overlay rewrites all 28 range-over-map sites), replica 0 in sorted order. After every ABCI call the proto-marshalled responses and the canonical state dumps must be byte-equal. Non-trivial = a state in which >=2 candidates of one voting hold >= threshold votes; distinct = distinct event-trace hashes among those.",
+		Rule: "World A: 2-3 real app.ShutterApp replicas execute the same generated block sequence (votes, check-ins, block-seen, DKG results and messages, replays, outsiders; 3-5 addresses, <=3 candidate configs, thresholds biased small); replica k>0 iterates every map in an order drawn from the tape (overlay rewrites all 28 range-over-map sites), replica 0 in sorted order. Between blocks a replica k>0 is, with probability 8%, stopped and started again from its state file (real PersistToDisk / LoadShutterAppFromFile on the simulated disk). After every ABCI call the proto-marshalled responses and the canonical state dumps must be byte-equal. Non-trivial = a state in which >=2 candidates of one voting hold >= threshold votes; distinct = distinct event-trace hashes among those.",
 		Assumptions: []string{"Tendermint delivers identical blocks to all replicas (consensus is a stub)", "map iteration order is the only in-process nondeterminism besides time; the app reads the clock only in Commit/persist (excluded fields LastSaved, Gobpath)"},
 		Real:        []string{"app.ShutterApp (InitChain, CheckTx, BeginBlock, DeliverTx, EndBlock, Commit)", "shmsg signing/decoding", "shutterevents encoding"},
 		Stub:        []string{"Tendermint consensus, mempool, block store (simtm)"},
@@ -30,7 +33,30 @@ func runC09(r *simkit.Run) {
 			return c.Perm(n, "maporder")
 		}
 	}
-	w.chain.CompareState = fullState
+	// (gob turns empty maps into nil maps; a restarted replica is compared modulo that)
+	w.chain.CompareState = func(a *app.ShutterApp) string { return strings.ReplaceAll(fullState(a), "map(nil)", "map[]") }
+	// "does not depend on the process": between blocks a replica other than replica 0 may be
+	// stopped and started again from its saved state file (real PersistToDisk /
+	// LoadShutterAppFromFile on the simulated disk)
+	fsys := simfs.New(func(n int, label string) int { return c.Intn(n, label) })
+	verifhook.FS = fsys
+	defer func() { verifhook.FS = nil }()
+	restartReplica := func() {
+		k := 1 + c.Intn(nrep-1, "restart-replica")
+		rep := w.chain.Replicas[k]
+		path := fmt.Sprintf("/data/replica-%d.gob", k)
+		rep.App.Gobpath = path
+		if err := rep.App.PersistToDisk(); err != nil {
+			r.InfraFail("PersistToDisk: %v", err)
+		}
+		loaded, err := app.LoadShutterAppFromFile(path)
+		if err != nil {
+			r.Fail("state-file-not-loadable", "restart", "replica %d cannot load the state file it just wrote: %v", k, err)
+		}
+		rep.App = &loaded
+		r.Eventf("replica %d restarted from its state file at height %d", k, loaded.LastBlockHeight)
+		r.Probe("replica-restarts")
+	}
 	var curBlock []*txInfo
 	w.chain.Diverged = func(where, a, b string) {
 		kind := strings.Fields(where)[0]
@@ -60,6 +86,9 @@ func runC09(r *simkit.Run) {
 			w.execBlock(pending)
 			pending = nil
 			c09probe(r, w.chain.Replicas[0].App)
+			if c.Chance(80, "restart-a-replica") {
+				restartReplica()
+			}
 		}
 	}
 	curBlock = pending
